@@ -1417,7 +1417,8 @@ pub fn gen_case(rng: &mut Rng, pool_len: usize, focus: &str, nops: usize) -> Gen
             });
         }
         let val = |i: usize, var: usize| slot_of(fb, i) * VARIANTS + var;
-        let nd = rng.range(1, 3) as usize;
+        // (one case in six: every member of the bucket is disconnected)
+        let nd = if rng.chance(1, if matches!(focus, "c08" | "c07") { 4 } else { 6 }) { 16 } else { rng.range(1, 3) as usize };
         let mut n_inc = 0usize;
         for i in 0..16 {
             let conn = i >= nd;
@@ -1447,15 +1448,22 @@ pub fn gen_case(rng: &mut Rng, pool_len: usize, focus: &str, nops: usize) -> Gen
         ops.push(Op::InsertOrUpdate(keys[fb][16], val(16, vars[16]), true, cand_inc));
         // the eviction candidates stay (0), leave and are replaced by connected nodes (1), or leave (2)
         let leave = rng.weighted(if focus == "c08" { &[2, 2, 3] } else { &[3, 2, 1] });
+        // (a bucket of disconnected nodes only: mostly one of them leaves and nobody takes its place -
+        // the candidate is then promoted into a bucket without a single connected node)
+        let lonely = nd == 16 && rng.chance(2, 3);
+        let leave = if lonely { 2 } else { leave };
         let mut next_new = 17usize;
         if leave > 0 {
-            for i in 0..nd {
+            for i in 0..nd.min(3) {
                 match rng.below(if filters { 3 } else { 2 }) {
                     0 => ops.push(Op::Remove(keys[fb][i])),
                     1 => ops.push(Op::Entry(keys[fb][i], Action::Remove)),
                     // a record update into a /24 that is full (in the bucket, or with `due_crowd` in
                     // the table) drops the node
                     _ => ops.push(Op::UpdateNode(keys[fb][i], val(i, a_var), None)),
+                }
+                if lonely {
+                    break;
                 }
                 if leave == 1 || rng.chance(1, 2) {
                     ops.push(Op::InsertOrUpdate(keys[fb][next_new], val(next_new, vars[next_new]), true, false));
@@ -1489,7 +1497,7 @@ pub fn gen_case(rng: &mut Rng, pool_len: usize, focus: &str, nops: usize) -> Gen
             ops.push(Op::ForceReady(bidx));
         }
         // the first operation that touches the bucket afterwards
-        let m = rng.range(nd as u64, 15) as usize;
+        let m = rng.range(nd.min(14) as u64, 15) as usize;
         let other_var = |rng: &mut Rng| -> usize {
             if filters {
                 *rng.pick(&[3usize, 2, 2, 0, 4, 1])
